@@ -1,6 +1,194 @@
-import BstreamVerif.Model.FileSourceSeq
 import BstreamVerif.Model.Resolver
+/-!
+# C06 — resuming from a cursor out of merged files undoes forks, replays finality
+
+`Resolver.run` is the cursor resolver wrapped around the handler of a file source that starts at the cursor's LIB
+number: `canon` are the canonical blocks in file order. The theorems give the whole output for every canonical list:
+blocks below the cursor block are held back; when the cursor block arrives (cursor on the canonical chain) the
+canonical blocks above the cursor LIB held so far are announced Irreversible and every later block is delivered once,
+in order, as new-and-irreversible; when a different block at or above the cursor height arrives (cursor on a fork)
+the output is the undos of the forked blocks (newest first, naming the junction), the Irreversible announcements up
+to the junction, the new-and-irreversible blocks above it; and when a forked block cannot be resolved nothing at all
+was delivered and the run ends with the resolution error.
+-/
 namespace BstreamVerif.Props.C06
-open BstreamVerif
+open BstreamVerif BstreamVerif.Resolver
+open BstreamVerif.HubBurst (Cur)
+
+theorem go_cons (files : List ForkFile) (c : Cur) (pt : Bool) (s : RState) (acc : List Event) (b : Blk) (rest : List Blk) :
+    run.go files c pt s acc (b :: rest) =
+      match (processBlock files c pt s b).2.2 with
+      | some e => (acc ++ (processBlock files c pt s b).2.1, some e)
+      | none => run.go files c pt (processBlock files c pt s b).1 (acc ++ (processBlock files c pt s b).2.1) rest := by
+  conv => lhs; unfold run.go
+  rcases processBlock files c pt s b with ⟨s', evs, e⟩
+  cases e <;> rfl
+
+theorem pb_resolved (files : List ForkFile) (c : Cur) (pt : Bool) (s : RState) (hs : s.resolved = true) (b : Blk) :
+    processBlock files c pt s b = (s, [fileEv .newIrreversible b], none) := by
+  simp [processBlock, hs]
+
+theorem pb_below (files : List ForkFile) (c : Cur) (seen : List Blk) (b : Blk) (hb : b.num < c.block.num) :
+    processBlock files c false ⟨seen, false⟩ b = (⟨seen ++ [b], false⟩, [], none) := by
+  simp [processBlock, hb]
+
+theorem pb_hit_new (files : List ForkFile) (c : Cur) (seen : List Blk) (b : Blk) (hb : ¬ b.num < c.block.num)
+    (hid : b.id = c.block.id) (hstep : c.step ≠ .undo) :
+    processBlock files c false ⟨seen, false⟩ b =
+      (⟨seen ++ [b], true⟩, sendBetween .irreversible (seen ++ [b]) c.lib.num c.block.num, none) := by
+  have hs : (c.step == Step.undo) = false := by simpa using hstep
+  simp [processBlock, hb, hid, hs]
+
+theorem pb_hit_undo (files : List ForkFile) (c : Cur) (seen : List Blk) (b : Blk) (hb : ¬ b.num < c.block.num)
+    (hid : b.id = c.block.id) (hstep : c.step = .undo) :
+    processBlock files c false ⟨seen, false⟩ b =
+      (⟨seen ++ [b], true⟩,
+        (if c.block.num > 0 then sendBetween .irreversible (seen ++ [b]) c.lib.num (c.block.num - 1) else []) ++
+          [fileEv .newIrreversible b], none) := by
+  simp [processBlock, hb, hid, hstep]
+
+theorem pb_fork_ok (files : List ForkFile) (c : Cur) (seen : List Blk) (b : Blk) (hb : ¬ b.num < c.block.num)
+    (hid : b.id ≠ c.block.id) (undos : List Blk) (j : Blk)
+    (hres : resolve files (seen ++ [b]) c (files.length + 2) (trunc16 c.block.id) [] = .ok (undos, j)) :
+    processBlock files c false ⟨seen, false⟩ b =
+      (⟨seen ++ [b], true⟩,
+        undos.map (fun u => (⟨.undo, u, c.head, c.lib, some j.ref, 0, 0⟩ : Event)) ++
+          sendBetween .irreversible (seen ++ [b]) c.lib.num j.num ++
+          sendBetween .newIrreversible (seen ++ [b]) j.num b.num, none) := by
+  have hb' : (b.id == c.block.id) = false := by simpa using hid
+  simp [processBlock, hb, hb', hres]
+
+theorem pb_fork_err (files : List ForkFile) (c : Cur) (seen : List Blk) (b : Blk) (hb : ¬ b.num < c.block.num)
+    (hid : b.id ≠ c.block.id) (e : RErr)
+    (hres : resolve files (seen ++ [b]) c (files.length + 2) (trunc16 c.block.id) [] = .error e) :
+    processBlock files c false ⟨seen, false⟩ b = (⟨seen ++ [b], false⟩, [], some e) := by
+  have hb' : (b.id == c.block.id) = false := by simpa using hid
+  simp [processBlock, hb, hb', hres]
+
+theorem go_resolved (files : List ForkFile) (c : Cur) (pt : Bool) (s : RState) (hs : s.resolved = true)
+    (acc : List Event) (rest : List Blk) :
+    run.go files c pt s acc rest = (acc ++ rest.map (fileEv .newIrreversible), none) := by
+  induction rest generalizing acc with
+  | nil => simp [run.go]
+  | cons b r ih =>
+    rw [go_cons, pb_resolved files c pt s hs b]
+    simp only
+    rw [ih]; simp
+
+/-- blocks below the cursor block are held back (not in pass-through mode) -/
+theorem go_below (files : List ForkFile) (c : Cur) (seen pre rest : List Blk) (acc : List Event)
+    (hpre : ∀ b ∈ pre, b.num < c.block.num) :
+    run.go files c false ⟨seen, false⟩ acc (pre ++ rest) = run.go files c false ⟨seen ++ pre, false⟩ acc rest := by
+  induction pre generalizing seen with
+  | nil => simp
+  | cons b r ih =>
+    have hb : b.num < c.block.num := hpre b (by simp)
+    rw [List.cons_append, go_cons, pb_below files c seen b hb]
+    simp only [List.append_nil]
+    rw [ih (seen ++ [b]) (fun x hx => hpre x (by simp [hx]))]
+    simp
+
+/-- **cursor on the canonical chain, New (or final) cursor** -/
+theorem on_chain_new_cursor (files : List ForkFile) (c : Cur) (pre post : List Blk) (cb : Blk)
+    (hpre : ∀ b ∈ pre, b.num < c.block.num) (hcb : cb.id = c.block.id) (hnum : ¬ cb.num < c.block.num)
+    (hstep : c.step ≠ .undo) :
+    run files c false (pre ++ cb :: post) =
+      (sendBetween .irreversible (pre ++ [cb]) c.lib.num c.block.num ++ post.map (fileEv .newIrreversible), none) := by
+  unfold run
+  rw [go_below files c [] pre (cb :: post) [] hpre, go_cons, List.nil_append, pb_hit_new files c pre cb hnum hcb hstep]
+  simp only [List.nil_append]
+  rw [go_resolved files c false _ rfl]
+
+/-- **cursor on the canonical chain, Undo cursor**: the cursor block itself is delivered again -/
+theorem on_chain_undo_cursor (files : List ForkFile) (c : Cur) (pre post : List Blk) (cb : Blk)
+    (hpre : ∀ b ∈ pre, b.num < c.block.num) (hcb : cb.id = c.block.id) (hnum : ¬ cb.num < c.block.num)
+    (hstep : c.step = .undo) :
+    run files c false (pre ++ cb :: post) =
+      ((if c.block.num > 0 then sendBetween .irreversible (pre ++ [cb]) c.lib.num (c.block.num - 1) else []) ++
+        [fileEv .newIrreversible cb] ++ post.map (fileEv .newIrreversible), none) := by
+  unfold run
+  rw [go_below files c [] pre (cb :: post) [] hpre, go_cons, List.nil_append, pb_hit_undo files c pre cb hnum hcb hstep]
+  simp only [List.nil_append]
+  rw [go_resolved files c false _ rfl]
+
+/-- **cursor on a fork**: undos newest first naming the junction, then the finality replay, then the new blocks -/
+theorem fork_cursor (files : List ForkFile) (c : Cur) (pre post : List Blk) (b : Blk)
+    (hpre : ∀ x ∈ pre, x.num < c.block.num) (hid : b.id ≠ c.block.id) (hnum : ¬ b.num < c.block.num)
+    (undos : List Blk) (j : Blk)
+    (hres : resolve files (pre ++ [b]) c (files.length + 2) (trunc16 c.block.id) [] = .ok (undos, j)) :
+    run files c false (pre ++ b :: post) =
+      (undos.map (fun u => (⟨.undo, u, c.head, c.lib, some j.ref, 0, 0⟩ : Event)) ++
+        sendBetween .irreversible (pre ++ [b]) c.lib.num j.num ++
+        sendBetween .newIrreversible (pre ++ [b]) j.num b.num ++ post.map (fileEv .newIrreversible), none) := by
+  unfold run
+  rw [go_below files c [] pre (b :: post) [] hpre, go_cons, List.nil_append, pb_fork_ok files c pre b hnum hid undos j hres]
+  simp only [List.nil_append]
+  rw [go_resolved files c false _ rfl]
+
+/-- **a forked block that cannot be resolved**: nothing at all was delivered, the run ends with the error -/
+theorem unresolvable (files : List ForkFile) (c : Cur) (pre post : List Blk) (b : Blk)
+    (hpre : ∀ x ∈ pre, x.num < c.block.num) (hid : b.id ≠ c.block.id) (hnum : ¬ b.num < c.block.num) (e : RErr)
+    (hres : resolve files (pre ++ [b]) c (files.length + 2) (trunc16 c.block.id) [] = .error e) :
+    run files c false (pre ++ b :: post) = ([], some e) := by
+  unfold run
+  rw [go_below files c [] pre (b :: post) [] hpre, go_cons, List.nil_append, pb_fork_err files c pre b hnum hid e hres]
+  rfl
+
+/-- the undone blocks come out of readable one-block files at or after the cursor LIB number, and the junction is a
+    canonical block seen in the merged files -/
+theorem resolve_sound (files : List ForkFile) (seen : List Blk) (c : Cur) (fuel : Nat) (prev : Id) (acc undos : List Blk)
+    (j : Blk) (h : resolve files seen c fuel prev acc = .ok (undos, j)) :
+    j ∈ seen ∧ ∃ more, undos = acc ++ more ∧
+      ∀ u ∈ more, ∃ f ∈ files, f.blk = u ∧ f.readable = true ∧ c.lib.num ≤ f.num := by
+  induction fuel generalizing prev acc with
+  | zero => simp [resolve] at h
+  | succ n ih =>
+    unfold resolve at h
+    cases hs : seenIrr seen prev with
+    | some jj =>
+      rw [hs] at h
+      simp only [Except.ok.injEq, Prod.mk.injEq] at h
+      obtain ⟨rfl, rfl⟩ := h
+      exact ⟨List.mem_of_find?_eq_some hs, [], by simp, by simp⟩
+    | none =>
+      rw [hs] at h
+      simp only at h
+      cases hl : lookupFork files c.lib.num prev with
+      | none => rw [hl] at h; cases h
+      | some f =>
+        rw [hl] at h
+        simp only at h
+        have hfm : f ∈ files ∧ c.lib.num ≤ f.num := by
+          unfold lookupFork at hl
+          have := List.mem_of_find?_eq_some hl
+          simp only [List.mem_reverse, List.mem_filter, decide_eq_true_eq] at this
+          exact this
+        split at h
+        · cases h
+        · split at h
+          · exact ih _ _ h
+          · split at h
+            · cases h
+            · rename_i hr
+              obtain ⟨hj, more, hm, hall⟩ := ih _ _ h
+              refine ⟨hj, f.blk :: more, by rw [hm]; simp, ?_⟩
+              intro u hu
+              simp only [List.mem_cons] at hu
+              rcases hu with rfl | hu
+              · exact ⟨f, hfm.1, rfl, by simpa using hr, hfm.2⟩
+              · exact hall u hu
+
+/-- what the finality replay contains: exactly the canonical blocks seen with a number in (low, high], in file order -/
+theorem sendBetween_spec (step : Step) (seen : List Blk) (lo hi : Nat) :
+    (sendBetween step seen lo hi).map (·.blk) = seen.filter (fun b => decide (lo < b.num) && decide (b.num ≤ hi)) ∧
+    ∀ e ∈ sendBetween step seen lo hi, e.step = step ∧ e.head = e.blk.ref ∧ e.lib = e.blk.ref := by
+  unfold sendBetween
+  refine ⟨?_, ?_⟩
+  · rw [List.map_map]
+    have : ((fun (e : Event) => e.blk) ∘ fileEv step) = id := by funext b; rfl
+    rw [this, List.map_id]
+  · intro e he
+    obtain ⟨b, _, rfl⟩ := List.mem_map.mp he
+    exact ⟨rfl, rfl, rfl⟩
 
 end BstreamVerif.Props.C06
